@@ -17,6 +17,26 @@ MIXES = [
 
 
 def run(ctx):
+    # Cyclic garbage collection can run a failed Deferred's __del__ at any allocation; that logs through twisted's log,
+    # foolscap's log bridge answers with eventually() -> Clock.callLater, and if this happens while task.Clock is sorting
+    # its call list the virtual clock raises "list modified during sort".  Collect only at safe points instead.
+    import gc
+    gc.disable()
+    try:
+        run_(ctx)
+    finally:
+        gc.enable()
+        gc.collect()
+
+
+def safe_point(counter=[0]):
+    import gc
+    counter[0] += 1
+    if counter[0] % 200 == 0:
+        gc.collect()
+
+
+def run_(ctx):
     ctx.rule = ("a case = (call mix, bytes delivered caller->callee before the cut, bytes delivered callee->caller, chunk "
                 "sizes, way the connection ends, what happens to stalled/late work afterwards) on two real Brokers, or a "
                 "random abstract op sequence executed through the real callRemote/getRequest/complete/fail/finish; "
@@ -54,6 +74,7 @@ def run(ctx):
 
 # ------------------------------------------------------------------ direct oracle on real Brokers
 def one(ctx, impl, traces, tag, cfg):
+    safe_point()
     try:
         with impl.quiet():
             r = impl.scenario(cfg["calls"], cfg["cutA"], cfg["cutB"], cfg.get("chunkA", 7), cfg.get("chunkB", 7),
@@ -193,6 +214,7 @@ def api_sequences(ctx, impl, traces):
     n = ctx.n(400, 6000)
     for i in range(n):
         ops = gen_ops(ctx.rng, ctx.rng.randint(3, 30))
+        safe_point()
         try:
             with impl.quiet():
                 r = impl.api_sequence(ops)
